@@ -144,7 +144,17 @@ fn build(c: &Case, values: &[Vec<u8>]) -> std::io::Result<Vec<u8>> {
         0 => {
             // with_addresses + write_tlv
             let mut b = with_addr(c, Version::Two | cmd, proto, addr);
+            // for lists of odd length the caller assembles every value in ONE scratch buffer that it refills between the calls
+            let mut scratch: Vec<u8> = Vec::with_capacity(values.iter().map(|v| v.len()).max().unwrap_or(0));
+            let reuse = c.tlvs.len() % 2 == 1 || c.tlvs.len() == 2;
             for (t, v) in c.tlvs.iter().zip(values) {
+                let v: &[u8] = if reuse {
+                    scratch.clear();
+                    scratch.extend_from_slice(v);
+                    &scratch
+                } else {
+                    v
+                };
                 b = match t.named {
                     Some(i) => b.write_tlv(TYPES[i], v)?,
                     None => b.write_tlv(t.kind, v)?,
@@ -217,7 +227,13 @@ fn build(c: &Case, values: &[Vec<u8>]) -> std::io::Result<Vec<u8>> {
                 };
                 if c.tlvs.len() % 2 == 0 {
                     // the received TLV section handed on as it is (the iterator is a payload of its own)
-                    Builder::with_addresses(received.version | received.command, received.protocol, received.addresses).write_payload(received.tlvs())?.build()
+                    // (for lists of 4, 8 .. TLVs after the forwarder has looked at the first one: the value still denotes the
+                    // header's TLV section - same reading as in C10 / C20)
+                    let mut section = received.tlvs();
+                    if c.tlvs.len() % 4 == 0 && !c.tlvs.is_empty() {
+                        let _ = section.next();
+                    }
+                    Builder::with_addresses(received.version | received.command, received.protocol, received.addresses).write_payload(section)?.build()
                 } else {
                     Builder::with_addresses(received.version | received.command, received.protocol, received.addresses).write_payloads(received.tlvs().filter_map(Result::ok))?.build()
                 }
@@ -478,6 +494,12 @@ pub fn gen_case(t: &mut Tape) -> Case {
         let len = want.min(room - 3);
         room -= 3 + len;
         tlvs.push(Tlv { named, kind: t.byte(), len, seed: crate::engine::gen_seed(t) });
+        // one time in six a sibling follows: same type, same length, other content (a list of certificates, of ALPN ids ...)
+        if t.chance(1, 6) && room >= 3 + len && len > 0 {
+            let last = tlvs[tlvs.len() - 1].clone();
+            room -= 3 + len;
+            tlvs.push(Tlv { seed: last.seed.wrapping_add(2) | 1, ..last });
+        }
     }
     Case { cmd: t.below(2) as u8, proto: t.below(3) as u8, addr, tlvs, route: t.below(20) as u8 }
 }
